@@ -12,7 +12,7 @@ def gen_value(r, depth=0, simple_numbers=False):
     k = r.random()
     if depth >= 3 or k < 0.4:
         nums = [0, 1, -1, 3.5, 42] if simple_numbers else [0, 1, -1, 3.5, 1e10, 12345678901234567, 0.001, -0.0]
-        return r.choice(nums + [True, False, None, '', 'str', 'with "quotes"', 'uni\u00e9', 'tab\there', 'a/b', '---', '[TestA - 1]', 'line\nbreak', '<a & b>', 'x>y'])
+        return r.choice(nums + [True, False, None, '', 'str', 'with "quotes"', 'uni\u00e9', 'tab\there', 'a/b', '---', '[TestA - 1]', 'line\nbreak', '<a & b>', 'x>y', 'C:\\users\\u0026co', '[^\\u003c]+'])
     if k < 0.75:
         keys = r.sample(['a', 'b', 'c', 'id', 'name', 'k.dot', 'sp ace', '\u00fc', 'z', 'A', 'aa'], r.randint(0, 4))
         return {kk: gen_value(r, depth + 1, simple_numbers) for kk in keys}
@@ -81,7 +81,8 @@ def make_world(g, tag):
         if [k for k, _ in line.events] != ['E'] or line.writes or line.removed:
             return 'invalid JSON must fail the test and write nothing, got %r w=%r' % ([(k, x[:30]) for k, x in line.events], line.writes)
         return None
-    w.add('%s 1 90 %s %s' % (kind, r.choice(['s', 'b']), hx(bad)), ('invalid-json-fails', exp_bad))
+    # (an empty json.RawMessage marshals to `null`: valid)
+    w.add('%s 1 90 %s %s' % (kind, r.choice(['s', 'b', 'vraw'] if bad else ['s', 'b']), hx(bad)), ('invalid-json-fails', exp_bad))
     w.add('end 90')
 
     def oracle(line, raw, ww):
